@@ -7,7 +7,8 @@ sys.path.insert(0, os.path.dirname(os.path.dirname(os.path.abspath(__file__))))
 from genlib import *
 
 LEAN_MODULES = ["MpirProofs.Props.C01_fftring"]
-THEOREMS = []
+THEOREMS = ["Mpir.Fft.normmod_val", "Mpir.Fft.mul_2expmod_val", "Mpir.Fft.div_2expmod_val", "Mpir.Fft.adjust_val",
+            "Mpir.Fft.butterfly_val", "Mpir.Fft.ifft_butterfly_val"]
 PINS = [("gmp-impl.h", "mpn_addmod_2expp1_1"),
         ("fft/normmod_2expp1.c", None), ("fft/mul_2expmod_2expp1.c", None), ("fft/div_2expmod_2expp1.c", None),
         ("fft/adjust.c", None), ("fft/adjust_sqrt2.c", None), ("fft/butterfly_lshB.c", None), ("fft/butterfly_rshB.c", None),
